@@ -308,6 +308,15 @@ def gen_commit_cases(rng, tier):
         idx = rng.choice([a, b])
         yield dict(part="commit", cls="two-responses", responses=[r1.hex(), r2.hex()], commit=idx,
                    edits=[rnd_edit(rng, idx, 0) for _ in range(rng.choice([0, 1, 2]))])
+    # the client KEEPS the Schedule object it got after the first response; the controller reports the same week again
+    # (the device replaces its Schedule objects); the client edits and commits the object it holds
+    for _ in range(25 if quick else 800):
+        a, b = rng.sample(range(40), 2)
+        ea, eb = mk_entry(rng, a), mk_entry(rng, b)
+        r1 = mk_response(rng, [ea, eb])
+        r2 = mk_response(rng, rng.choice([[ea, eb], [eb, ea], [ea]]))
+        yield dict(part="commit", cls="kept-object", responses=[r1.hex(), r2.hex()], commit=a, keep=True,
+                   edits=[rnd_edit(rng, a, 0) for _ in range(rng.choice([1, 2, 3]))])
     # malformed: duplicate index, undefined parameter, unknown index, truncated payload, commit of an absent schedule
     for _ in range(60 if quick else 2500):
         idx = rng.randrange(40)
@@ -350,23 +359,26 @@ def run_device(cases):
         loop.set_exception_handler(lambda *_: None)  # failures inside dispatch tasks are part of the behaviour
         device = EcoMAX(asyncio.Queue(), NetworkInfo())
         try:
+            kept = None
             for r in c["responses"]:
                 try:
                     device.handle_frame(SchedulesResponse(message=bytearray(bytes.fromhex(r))))
                 except Exception as e:  # noqa: BLE001
                     return "err:" + type(e).__name__
                 await quiesce()
+                if c.get("keep") and kept is None:
+                    kept = device.data["schedules"][SCHEDULES[c["commit"]]]
             outs = []
             for idx, day, st, a, b in c["edits"]:
                 try:
-                    sched = device.data["schedules"][SCHEDULES[idx]]
+                    sched = kept if kept is not None and idx == c["commit"] else device.data["schedules"][SCHEDULES[idx]]
                     getattr(sched, day).set_state(st, a, b)
                     outs.append("ok")
                 except Exception as e:  # noqa: BLE001
                     outs.append(type(e).__name__)
             extra = {}
             try:
-                sched = device.data["schedules"][SCHEDULES[c["commit"]]]
+                sched = kept if kept is not None else device.data["schedules"][SCHEDULES[c["commit"]]]
                 await sched.commit()
                 await quiesce()
                 req = device.queue.get_nowait()
@@ -449,7 +461,7 @@ def run_commit_cases(cases, res):
         if isinstance(o, str):
             continue
         outs, payload, extra = o
-        wellformed = c["cls"] in ("edited", "unedited", "all-40")
+        wellformed = c["cls"] in ("edited", "unedited", "all-40", "kept-object")
         if wellformed:
             if extra.get("frame") != "SetScheduleRequest" or extra.get("recipient") != 69 or extra.get("queue_left") != 0:
                 res.fail("spec", c, "one SetScheduleRequest addressed to the ecoMAX", dict(payload=payload, extra=extra),
